@@ -77,7 +77,15 @@ func (f *frame) call(t *ssa.Call) {
 	why := "unspecified callee " + funcDisplayName(callee)
 	if !inModule && isPureExternal(callee) {
 		x.note("%s: result unconstrained, assumed to terminate without panic and without writing memory visible to the caller", why)
-		f.setFreshResult(t)
+		res := f.setFreshResult(t)
+		if callee.Name() == "EncodeToString" && len(args) > 0 && len(res.T) == 1 {
+			// every textual encoding is at least as long as its input
+			src := args[len(args)-1]
+			if _, ok := src.Typ.Underlying().(*types.Slice); ok {
+				f.assume(BVCmp("bvuge", x.strLen(res.T[0]), src.T[2]))
+				x.note("EncodeToString: the encoded text is at least as long as the input (law of hex/base32/base64)")
+			}
+		}
 		return
 	}
 	f.havocCall(t, why, args, inModule)
